@@ -159,15 +159,16 @@ static void corpus(Keys &K) {
 static void strata(Keys &K, int per_class, int nthreads) {
     std::string base = fmt("strata/lambda=%d", K.lam); current(base); Stats st; const LweParams *lp = K.ps->in_out_params; const auto &G = table();
     static const char *CLS[] = {"fresh", "gate-outputs", "adversarial", "deep-chain", "mixed"};
-    std::atomic<int> next(0); int total = 5 * per_class; std::vector<std::thread> pool; std::atomic<bool> failed(false);
+    int ncls = quick() ? 3 : 5;   // quick: fresh, gate-outputs, adversarial on binary gates; thorough adds depth-6 chains, mixed inputs and MUX
+    std::atomic<int> next(0); int total = ncls * per_class; std::vector<std::thread> pool; std::atomic<bool> failed(false);
     for (int t = 0; t < nthreads; t++) pool.emplace_back([&] { LweSample *in[3], *tmp[3], *out = new_LweSample(lp); for (int q = 0; q < 3; q++) { in[q] = new_LweSample(lp); tmp[q] = new_LweSample(lp); }
-        for (;;) { int i = next.fetch_add(1); if (i >= total || failed) break; int cls = i % 5, rep = i / 5; uint64_t x = (uint64_t)i * 0x9E3779B97F4A7C15ULL + K.lam; int bits[3];
+        for (;;) { int i = next.fetch_add(1); if (i >= total || failed) break; int cls = i % ncls, rep = i / ncls; uint64_t x = (uint64_t)i * 0x9E3779B97F4A7C15ULL + K.lam; int bits[3];
             for (int q = 0; q < 3; q++) { bits[q] = (int)(splitmix(x) & 1); int c = cls == 4 ? (int)(splitmix(x) % 4) : cls;
                 if (c == 0) fresh(K, in[q], bits[q], x);
                 else if (c == 1) { int b0 = (int)(splitmix(x) & 1); fresh(K, tmp[0], b0, x); fresh(K, tmp[1], bits[q] ^ b0, x); bootsXOR(in[q], tmp[0], tmp[1], &K.sk->cloud); }
                 else if (c == 2) { fresh(K, in[q], bits[q], x); Torus32 ph = lwePhase(in[q], K.sk->lwe_key); in[q]->b += ((bits[q] ? MU8 : -MU8) + ((splitmix(x) & 1) ? 1 : -1) * ((1 << 27) - (1 << 12))) - ph; }
                 else { fresh(K, in[q], bits[q], x); for (int d = 0; d < 6; d++) { fresh(K, tmp[0], 0, x); bootsXOR(in[q], in[q], tmp[0], &K.sk->cloud); } } }   // depth-6 in-place chain, plaintext preserved
-            bool mux = rep % 4 == 3; const Gate &g = mux ? G[10] : G[rep % 10];
+            bool mux = thorough() && rep % 4 == 3; const Gate &g = mux ? G[10] : G[rep % 10];
             apply(g, out, in[0], in[1], in[2], 0, &K.sk->cloud); int want = g.truth(bits[0], bits[1], bits[2]);
             if (bootsSymDecrypt(out, K.sk) != want) { viol(base + fmt("/sample=%d", i), fmt("%s on %s inputs decrypts wrongly", g.name, CLS[cls])); failed = true; break; }
             double e = (double)ref::sdiff(lwePhase(out, K.sk->lwe_key), want ? MU8 : -MU8) / 4294967296.0; if (std::fabs(e) >= 3.0 / 64) { viol(base + fmt("/sample=%d", i), fmt("%s on %s inputs: output error %.5f >= 3/64", g.name, CLS[cls], e)); failed = true; break; }
@@ -185,6 +186,6 @@ int main(int argc, char **argv) {
     // a process that serves several parameter sets: the other default set's keys are generated first (key generation must not remember an earlier noise level)
     if (opt("prekeys", "1") == "1") { TFheGateBootstrappingParameterSet *o = new_default_gate_bootstrapping_parameters(lam > 80 ? 80 : 128); SK *osk = new_random_gate_bootstrapping_secret_keyset(o); delete_gate_bootstrapping_secret_keyset(osk); delete_gate_bootstrapping_parameters(o); }
     Keys K; K.lam = lam; K.ps = new_default_gate_bootstrapping_parameters(lam); K.sk = new_random_gate_bootstrapping_secret_keyset(K.ps); K.n = K.ps->in_out_params->n; K.bound = lam > 80 ? 0.0037 : 0.0047;
-    if (part == "bfs") bfs(K, w, nth); else if (part == "strata") strata(K, (int)opti("per_class", quick() ? 1300 : 6000), nth); else corpus(K);
+    if (part == "bfs") bfs(K, w, nth); else if (part == "strata") strata(K, (int)opti("per_class", quick() ? 1400 : 6000), nth); else corpus(K);
     return finish();
 }
